@@ -186,6 +186,10 @@ def judge(prop, case, res, exp):
         m = src
     for t, f in enumerate(chain):
         C["fmt:" + f] = C.get("fmt:" + f, 0) + 1
+        if writes[t].get("rc") != 0 and f == "LP" and any("SOS information in LP format" in str(x) for x in writes[t].get("logs", [])):
+            # the LP format cannot carry SOS sets (source file had some): documented refusal, nothing further to compare
+            C["lp-writer-refuses-sos(documented)"] = C.get("lp-writer-refuses-sos(documented)", 0) + 1
+            return V, C, True
         if writes[t].get("rc") != 0:
             V.append(("%s|%s|write-failed" % (prop, f), "writer returned rc=%r for a valid problem (step %d of %s) logs=%s" % (writes[t].get("rc"), t, chain, writes[t].get("logs", [])[:3])))
             return V, C, True
